@@ -33,3 +33,8 @@ def items(tier, seed):
         ['flat5s'], th, force='windows', fargs={'values': [1, 2, 3]},
         job_open={'dur': [0, 2], 'out': ['raise']}, top_open={}, k=1,
         bound=3 if th else 2)
+    yield from spaces.mk(
+        ['flat23', 'nest22'], force='each_job',
+        fargs={'mods': [('forever', True)]}, pre=True,
+        job_open={'dur': [0, 2]}, top_open={'window': [1, 2]}, nest_open={},
+        k=1, bound=2)
